@@ -83,6 +83,62 @@ struct RED {
     static void norm_part(Ctx&, const Tensor<T, D...>&, const T*, size_t, If<false>) {}
 };
 
+// the same reductions when the argument is an expression that the library has to EVALUATE into a temporary first (a lazy transpose, a lazy matrix
+// product, an element-wise node with such a child): these go through separate overloads of every reduction.  x (MxN) carries the pattern, Xt (NxM) its
+// transpose and I the NxN identity, so trans(Xt), x % I and trans(Xt) - Z all denote exactly the elements of x.
+template <class T, size_t M, size_t N>
+struct RED2 {
+    template <bool B> struct If {};
+    static void run(Ctx& c) {
+        Rng g = c.rng();
+        VP_OPERAND((Tensor<T, M, N>), x); VP_OPERAND((Tensor<T, N, M>), Xt); Tensor<T, N, N> I; Tensor<T, M, N> Z; I.zeros(); Z.zeros(); for (size_t i = 0; i < N; ++i) I.data()[i * N + i] = T(1);
+        T* p = x.data(); constexpr size_t SZ = M * N; long runs = 0;
+        for (int pat = 0; pat < 6; ++pat) {
+            size_t reps = pat == 3 ? 2 * SZ : 3;
+            for (size_t r = 0; r < reps; ++r) {
+                pattern(p, SZ, pat, r, g, false);
+                for (size_t i = 0; i < M; ++i) for (size_t j = 0; j < N; ++j) Xt.data()[j * M + i] = p[i * N + j];
+                launder(Xt.data());
+                T v;
+                VP_LIB(v = sum(trans(Xt))); judge_sum(c, "sum(trans(Xt))", v, p, SZ, true);
+                VP_LIB(v = sum(x % I)); judge_sum(c, "sum(x%I)", v, p, SZ, true);
+                VP_LIB(v = sum(trans(Xt) - Z)); judge_sum(c, "sum(trans(Xt)-Z)", v, p, SZ, true);
+                VP_LIB(v = min(trans(Xt))); judge_minmax(c, "min(trans(Xt))", v, p, SZ, false);
+                VP_LIB(v = max(trans(Xt))); judge_minmax(c, "max(trans(Xt))", v, p, SZ, true);
+                VP_LIB(v = min(x % I)); judge_minmax(c, "min(x%I)", v, p, SZ, false);
+                VP_LIB(v = max(x % I)); judge_minmax(c, "max(x%I)", v, p, SZ, true);
+                VP_LIB(v = min(Z + x % I)); judge_minmax(c, "min(Z+x%I)", v, p, SZ, false);
+                VP_LIB(v = max(trans(Xt) - Z)); judge_minmax(c, "max(trans(Xt)-Z)", v, p, SZ, true);
+                norm_part(c, Xt, I, x, p, If<std::is_floating_point<T>::value>());
+                { bool e; VP_LIB(e = isequal(trans(Xt), x)); c.check(e, "predicate-mismatch:isequal(trans(Xt),x)", "isequal(trans(Xt), x) is false for equal operands"); }
+                square_part(c, Xt, I, x, p, If<(M == N)>());
+                ++runs;
+            }
+        }
+        for (int it = 0; it < 20; ++it) {
+            int twos = 0; for (size_t i = 0; i < SZ; ++i) { long f = (g.next() % 4 == 0 && twos < 20) ? (++twos, 2) : 1; p[i] = (T)((g.next() & 1) ? f : -f); } launder(p);
+            for (size_t i = 0; i < M; ++i) for (size_t j = 0; j < N; ++j) Xt.data()[j * M + i] = p[i * N + j];
+            launder(Xt.data());
+            T w = T(1); for (size_t i = 0; i < SZ; ++i) w = Arith<T>::mul(w, p[i]);
+            T v; VP_LIB(v = product(trans(Xt))); c.eqn(v, w, "product(trans(Xt))", 0, "reduction-mismatch:product");
+            VP_LIB(v = product(x % I)); c.eqn(v, w, "product(x%I)", 0, "reduction-mismatch:product");
+        }
+        c.sub = runs; c.nontrivial = true;
+    }
+    static void norm_part(Ctx& c, const Tensor<T, N, M>& Xt, const Tensor<T, N, N>& I, const Tensor<T, M, N>& x, const T* p, If<true>) {
+        long double s = 0; for (size_t i = 0; i < M * N; ++i) s += (long double)p[i] * p[i]; long double w = sqrtl(s);
+        T v; VP_LIB(v = norm(trans(Xt))); c.near(v, w, ((long double)(M * N) / 2 + 2) * std::numeric_limits<T>::epsilon() * w, "norm(trans(Xt))", 0, "reduction-bound:norm");
+        VP_LIB(v = norm(x % I)); c.near(v, w, ((long double)(M * N) / 2 + 2) * std::numeric_limits<T>::epsilon() * w, "norm(x%I)", 0, "reduction-bound:norm");
+    }
+    static void norm_part(Ctx&, const Tensor<T, N, M>&, const Tensor<T, N, N>&, const Tensor<T, M, N>&, const T*, If<false>) {}
+    static void square_part(Ctx& c, const Tensor<T, N, M>& Xt, const Tensor<T, N, N>& I, const Tensor<T, M, N>& x, const T* p, If<true>) {
+        T w = T(0); for (size_t i = 0; i < N; ++i) w = Arith<T>::add(w, p[i * N + i]);
+        T v; VP_LIB(v = trace(trans(Xt))); c.eqn(v, w, "trace(trans(Xt))", 0, "reduction-mismatch:trace");
+        VP_LIB(v = trace(x % I)); c.eqn(v, w, "trace(x%I)", 0, "reduction-mismatch:trace");
+    }
+    static void square_part(Ctx&, const Tensor<T, N, M>&, const Tensor<T, N, N>&, const Tensor<T, M, N>&, const T*, If<false>) {}
+};
+
 // predicates: every boolean pattern for n <= 12 (exhaustive), random for larger n; Tensor<bool> and boolean expressions
 template <class T, size_t N>
 void predicates(Ctx& c) {
